@@ -166,6 +166,7 @@ class Engine:
         self.max_paths = max_paths
         self.max_depth = max_depth
         self.all_status = frozenset(sm.members)
+        self.ownership_errors = True  # a refused request of a non-owner may raise the ownership error as well
         self.available = frozenset(sm.available)
         self.final = frozenset(sm.final)
         self._effectful: dict[str, bool] = {}
@@ -888,6 +889,13 @@ class Engine:
                 if bad_from:
                     ff = all(b in self.final for b in bad_from)
                 yield s2, UNK, ExcVal("InvocationStatusTransitionError", tokv.tok, ff)
+                if not cur.own and self.ownership_errors and (preds & frozenset(self.sm.owned)) and not self.sm.defs.get(X, {}).get("overrides_ownership"):
+                    # (validation order: the table is consulted first, so the ownership error needs an OWNED status from
+                    # which X is an edge - e.g. KILLED from another runner's RUNNING - otherwise the transition error wins)
+                    # another runner may own it by now: the request of a non-owner is refused with the
+                    # ownership error (a sibling class of the transition error under InvocationStatusError)
+                    s3 = s2.copy()
+                    yield s3, UNK, ExcVal("InvocationStatusOwnershipError", tokv.tok, False)
             return
         if nm == "route_invocation":
             tokv = args[0] if args else UNK
